@@ -1,8 +1,8 @@
 (* Model of MeasurementOutcomeDistribution (property C17):
    distributions/_measurement_outcome_distribution.py.
    Keys are tuples of naturals, weights are rationals (floats idealised), a dictionary is an
-   association list in insertion order.  Errors are values.  Negative tuple entries, keys that are
-   neither str nor tuple, and the "0 < norm < float_min" branch are outside the model. *)
+   association list in insertion order.  Errors are values.  Negative tuple entries and keys that are
+   neither str nor tuple are outside the model. *)
 Require Import Coq.ZArith.ZArith Coq.QArith.QArith Coq.QArith.Qabs Coq.QArith.Qminmax.
 Require Import Coq.Lists.List Coq.Strings.String Coq.Strings.Ascii Coq.Bool.Bool.
 Require Import Coq.Init.Decimal Coq.Numbers.DecimalString Coq.Numbers.DecimalNat.
@@ -57,10 +57,15 @@ Definition valid (d : dist) : bool :=
 
 Definition scale (c : Q) (d : dist) : dist := map (fun kv => (fst kv, snd kv * c)) d.
 
+(* sys.float_info.min, the smallest positive normal double 2^-1022, and the test 0 < s < sys.float_info.min *)
+Definition float_min : Q := 1 # (2 ^ 1022).
+Definition tiny (s : Q) : bool := negb (Qle_bool s 0) && negb (Qle_bool float_min s).
+
 (* normalize_measurement_outcome_distribution *)
 Definition normalize_dict (d : dist) : res dist :=
   let norm := mass d in
   if Qeq_bool norm 0 then Err ValueErr
+  else if tiny norm then Err ValueErr                 (* "too small values" *)
   else if Qeq_bool norm 1 then Ok d
   else Ok (scale (1 / norm) d).
 
